@@ -165,7 +165,7 @@ def run(ctx):
                 rep.violation('correspondence', {'property': 'C06', 'kind': 'model-vs-implementation', 'seed': ctx.seed, 'case': c['id'],
                                                  'literal': c['lit'].decode('latin-1'), 'literal_hex': c['lit'].hex(),
                                                  'implementation': (got or '')[:2000], 'model': (model.get(c['id']) or '')[:2000], 'line': c['line']})
-    n_pp = n_pmm = n_ptie = n_ptie_bad = 0
+    n_pp = n_pmm = n_ptie = n_ptie_bad = n_pgood = 0
     for c in pcases:
         if pmodel is not None:
             gi, gm = pimpl.get(c['id']) or '', pmodel.get(c['id']) or ''
@@ -179,7 +179,9 @@ def run(ctx):
             t = ptie.get(c['id'])
             if t is not None and t != 'parse-error':
                 n_ptie += 1
-                if t != 'tokens=agree readback=same':
+                if t.startswith('good=yes '):
+                    n_pgood += 1          # the hypothesis of C06_pretty_same_instructions_checked, evaluated on this program
+                if t.partition(' ')[2] != 'tokens=agree readback=same':
                     n_ptie_bad += 1
                     if n_ptie_bad <= 3:
                         rep.violation('correspondence', {'property': 'C06', 'kind': 'pretty-printer model: text vs token-level view', 'seed': ctx.seed, 'case': c['id'],
@@ -198,6 +200,6 @@ def run(ctx):
                                          'listing_of_input': a, 'listing_of_pretty': b, 'line': c['line']})
     cov = {'evaluations': len(cases) + len(pcases), 'distinct_nontrivial': len(distinct) + n_pp,
            'rule': 'literal values (booleans, strings over all bytes 1..255 with boosted quotes/newlines/backslashes, numbers with at most 6 significant digits spelled plain / with exponent / with leading dot / in hex / negated, nested arrays, code blocks over the live registry): g1 = literal; gx = str g1; g2 = call compile gx — the rendered g1 and g2 (instruction listings for code) must coincide, isEqualTo must hold, str must equal the expected text, the literal must denote the nearest single-precision value; literals below the smallest normal single-precision value denote the nearest subnormal value or zero (oracle only); also two such round trips in one VM on values that differ in the case of their letters only; the same run on the Lean model (str = model of to_string_sqf / reconstruct, compile = the C01 front-end model) must give the same observation; pretty printer: listing(pretty(text)) = listing(text); the text must equal the text the Lean model of prettify writes byte for byte, and that text must lex to the token sequence of the decorated tree the C06_pretty theorems speak about',
-           'samples': samples, 'oracle_failures': n_or, 'model_mismatches': n_mm, 'pretty_printed': n_pp, 'pretty_model_mismatches': n_pmm, 'pretty_text_vs_token_view_checked': n_ptie, 'pretty_text_vs_token_view_differences': n_ptie_bad, 'value_kinds': g.stats}
+           'samples': samples, 'oracle_failures': n_or, 'model_mismatches': n_mm, 'pretty_printed': n_pp, 'pretty_model_mismatches': n_pmm, 'pretty_text_vs_token_view_checked': n_ptie, 'pretty_theorem_hypothesis_holds_on': n_pgood, 'pretty_text_vs_token_view_differences': n_ptie_bad, 'value_kinds': g.stats}
     return rep.finish(cov, ['numbers outside the at-most-6-significant-digit class are not generated (the property restricts to it)',
                             'binary rounding of arbitrary floats is not modelled; the decimal class is exact in the model'])
